@@ -328,6 +328,51 @@ def deriv_model_stream(res, rng, k):
             res.disagreements.append({'what': 'derivative vs model (regenerated table, stencil sum, division by dx^n)', 'input': case, 'impl': got, 'model': mv})
 
 
+def gradhess_model_stream(res, rng, k):
+    """the executable Lean models of `gradient` and `hessianMatrix` (Model/Deriv.lean: the stencil along one coordinate, the gradient of each
+    gradient component) with the regenerated first-derivative tables against the implementation, on quadratic functions (stencil sizes 3-9,
+    decimal and dyadic steps)"""
+    core.import_impl()
+    import numpy as np
+    from ffpack import utils
+    from formmodel import fcsv, unbits
+    reqs, meta = [], []
+    for _ in range(k):
+        d = rng.choice([1, 2, 3])
+        m = rng.choice([3, 5, 7, 9])
+        c0 = float(rng.randint(-5, 5))
+        b = np.array([float(rng.randint(-5, 5)) for _ in range(d)])
+        Q = np.array([[float(rng.randint(-4, 4)) for _ in range(d)] for _ in range(d)])
+        x = np.array([rng.choice([0.0, 1.0, -0.5, 2.0, 0.75, 10.0]) for _ in range(d)])
+        dx = rng.choice([0.5, 0.125, 1e-2, 1e-3, 0.1])
+        f = lambda X, c0=c0, b=b, Q=Q: c0 + float(b @ np.array(X, dtype=float)) + float(np.array(X, dtype=float) @ Q @ np.array(X, dtype=float))
+        case = {'c0': c0, 'b': b.tolist(), 'Q': Q.tolist(), 'point': x.tolist(), 'dx': dx, 'order': m}
+        res.evaluations += 1
+        res.stat('gradhess_model_order_%d' % m)
+        try:
+            g = utils.gradient(f, d, n=1, dx=dx, order=m)
+            H = utils.hessianMatrix(f, d, dx=dx, order=m)
+            gv = [float(g[i](x.tolist())) for i in range(d)]
+            Hv = [float(H[i][j](x.tolist())) for i in range(d) for j in range(d)]
+        except Exception as e:  # noqa
+            fail(res, 'gradient / hessianMatrix raised on a quadratic: ' + repr(e)[:100], case, None)
+            continue
+        reqs.append('gradhess %d %d %s %s %s %s %s' % (m, d, fcsv([c0]), fcsv(b), fcsv(Q.flatten()), fcsv(x), fcsv([dx])))
+        mag = 1.0 + abs(c0) + float(np.sum(np.abs(b)) * (np.max(np.abs(x)) + m * dx)) + float(np.sum(np.abs(Q))) * (float(np.max(np.abs(x))) + m * dx) ** 2
+        meta.append((case, gv, Hv, mag, dx))
+    for (case, gv, Hv, mag, dx), a in zip(meta, core.driver_batch(reqs)):
+        res.traces += 1
+        try:
+            mg, mH = (unbits(t) for t in a.split(' '))
+            ok = len(mg) == len(gv) and len(mH) == len(Hv) and all(abs(p - q) <= 1e-12 * mag / dx * 1e3 for p, q in zip(mg, gv)) and \
+                all(abs(p - q) <= 1e-12 * mag / dx ** 2 * 1e4 for p, q in zip(mH, Hv))
+        except Exception:  # noqa
+            mg, mH, ok = a[:80], None, False
+        if not ok:
+            res.disagreements.append({'what': 'gradient / hessianMatrix vs model (stencil along a coordinate, gradient of the gradient)', 'input': case,
+                                      'impl': [gv, Hv], 'model': [mg, mH]})
+
+
 def gram_model_stream(res, rng, k):
     """the executable Lean model of gramSchmidOrth (Model/Gram.lean: coincidence test, column re-arrangement, the two loops) against
     the implementation, column by column, on well-conditioned integer matrices: default alignment, a generic alignment vector, an exact
@@ -391,6 +436,7 @@ def run(tier, seed):
     explore(res, random.Random(seed), n)
     gram_model_stream(res, random.Random(seed + 5), 150 if tier == 'quick' else 5000)
     deriv_model_stream(res, random.Random(seed + 6), 150 if tier == 'quick' else 5000)
+    gradhess_model_stream(res, random.Random(seed + 8), 60 if tier == 'quick' else 2000)
     if (res.proof_problems or res.disagreements) and not res.failures:
         explore(res, random.Random(seed + 7919), 4 * n)
     res.disagreements_checked = res.traces
